@@ -181,6 +181,26 @@ def as_collection(value: Any) -> Optional[List[Any]]:
         return None
 
 
+def mismatched(column: Any, value: Any) -> bool:
+    """
+    Text against a numeric column, or a number against a text column: never equal in Python, but
+    the database converts one into the other before it compares.
+
+    :param column: A translated operand
+    :param value: The other translated operand
+    :return: True if column is a column and value a literal of the other kind
+    """
+    try:
+        python_type = column.type.python_type
+    except (AttributeError, NotImplementedError):
+        return False
+    if isinstance(value, bool):
+        return False
+    if python_type in (int, float):
+        return isinstance(value, str)
+    return python_type is str and isinstance(value, (int, float))
+
+
 def membership(column: Any, values: List[Any]) -> Any:
     """
     ``column IN values`` with Python's meaning of a None element (NULL IN (..., NULL) is never true in SQL).
@@ -189,6 +209,10 @@ def membership(column: Any, values: List[Any]) -> Any:
     :param values: The elements of the container
     :return: SQLAlchemy expression
     """
+    if any(mismatched(column, value) for value in values):
+        raise UnsupportedOperatorError(
+            "A collection that mixes text and numbers cannot be searched for a column value."
+        )
     present = [value for value in values if value is not None]
     expression = column.in_(present)
     if len(present) != len(values):
@@ -577,6 +601,11 @@ class EQLTranslator:
             "in_",
         ):
             return self._handle_contains_operator(query, left, right, operator_name)
+
+        if mismatched(left, right) or mismatched(right, left):
+            raise UnsupportedOperatorError(
+                "A text value and a number are never equal and have no order in Python."
+            )
 
         is_ordering = operation in (operator.lt, operator.le, operator.gt, operator.ge)
         if is_ordering and any(
